@@ -122,6 +122,10 @@ def _gen_config(incdir):
                 out.append(line)
         with open(os.path.join(incdir, name), "w") as f:
             f.write("".join(out))
+    # tools/config.h (pinned build: FOUND_POSIX_GETOPT is ON on this platform, so wbxml_getopt is libc's getopt)
+    os.makedirs(os.path.join(incdir, "tools"), exist_ok=True)
+    with open(os.path.join(incdir, "tools", "config.h"), "w") as f:
+        f.write("#ifndef WBXML_TOOLS_CONFIG_H\n#define WBXML_TOOLS_CONFIG_H\n#define FOUND_POSIX_GETOPT\n#endif\n")
 
 
 def _prune(base, keep):
@@ -173,6 +177,26 @@ def build_lib(flavor="asan", extra_defs=(), tag=""):
 
 class BuildError(Exception):
     pass
+
+
+def build_tools(flavor="asan"):
+    """wbxml2xml / xml2wbxml executables from REPO/tools + the library of the current tree.
+    Returns dict name -> path."""
+    d = build_lib(flavor)
+    out = {}
+    with Lock("tools-" + flavor):
+        for t in ("wbxml2xml", "xml2wbxml"):
+            exe = os.path.join(d, t)
+            if not os.path.exists(exe):
+                cmd = [FLAVORS[flavor][0]] + cflags(flavor) + ["-I" + os.path.join(REPO, "tools"),
+                       os.path.join(REPO, "tools", t + "_tool.c"), os.path.join(REPO, "tools", "attgetopt.c"),
+                       os.path.join(d, "libwbxml.a"), "-lexpat", "-o", exe + ".tmp"]
+                rc, o, e = sh(cmd)
+                if rc != 0:
+                    raise BuildError("tool build failed: %s\n%s" % (t, e[-3000:]))
+                os.rename(exe + ".tmp", exe)
+            out[t] = exe
+    return out
 
 
 def build_harness(name, flavor="asan", sources=None, extra=(), libs=("-lexpat",), link_lib=True, tag=""):
